@@ -41,17 +41,37 @@ class PathCtx:
         self.solver = z3.Solver()
         self.solver.set('timeout', timeout_ms)
         for c in base_pc:
-            self.solver.add(c)
+            if not has_quantifier(c):
+                self.solver.add(c)
         self.obligations = []
         self.notes = []
 
     def add(self, cond):
         self.pc.append(cond)
-        self.solver.add(cond)
+        # quantified facts stay out of the feasibility solver (they make it answer `unknown`,
+        # which would keep infeasible branches alive); they are part of every obligation's pc
+        if not has_quantifier(cond):
+            self.solver.add(cond)
 
     def feasible(self, cond):
         r = self.solver.check(cond)
         return r != z3.unsat
+
+
+def has_quantifier(t):
+    seen = set()
+    stack = [t]
+    while stack:
+        x = stack.pop()
+        if z3.is_quantifier(x):
+            return True
+        i = x.get_id()
+        if i in seen:
+            continue
+        seen.add(i)
+        if z3.is_app(x):
+            stack.extend(x.children())
+    return False
 
 
 class PathResult:
